@@ -59,6 +59,21 @@ def all_paths(jp, env, text, doc, other=None):
     res["module.finditer"] = call_list(lambda: jp.finditer(text, doc))
     res["env.find"] = call_list(lambda: env.find(text, doc))
     res["env.finditer"] = call_list(lambda: env.finditer(text, doc))
+    # an environment (and a compiled query) that nothing else refers to any more while the iterator is drained
+    import gc
+    from jsonpath_rfc9535 import JSONPathEnvironment as _Env
+
+    def temp_env_iter():
+        it = _Env().finditer(text, doc)
+        gc.collect()
+        return it
+
+    def temp_compiled_iter():
+        it = _Env().compile(text).finditer(doc)
+        gc.collect()
+        return it
+    res["temporary-env.finditer"] = call_list(temp_env_iter)
+    res["temporary-env.compile.finditer"] = call_list(temp_compiled_iter)
     ones = {}
     ones["module.find_one"] = call_one(lambda: jp.find_one(text, doc))
     ones["env.find_one"] = call_one(lambda: env.find_one(text, doc))
@@ -150,7 +165,7 @@ def singular_case(R):
         if R.random() < 0.5:
             k = R.choice(names)
         else:
-            k = R.choice([0, 1, -1, 2])
+            k = R.choice([0, 1, -1, 2, -4, -5, -7, -2])
         path.append(k)
         segs.append(("child", (("name", k) if isinstance(k, str) else ("idx", k),)))
     q = ("q", "$", tuple(segs))
@@ -164,7 +179,8 @@ def singular_case(R):
             v = {k: v, "z": 1}
         else:
             arr = [R.choice(["x", 0, None]) for _ in range(3)]
-            arr[k] = v
+            if -3 <= k < 3:
+                arr[k] = v       # indices beyond the array (e.g. -5 on 3 elements) select nothing: leave the array as it is
             v = arr
     return q, v
 
